@@ -3527,3 +3527,119 @@ func ruleSmallGuards(which string) func(c *Ctx) {
 		}
 	}
 }
+
+// ---------------------------------------------------------------------------
+// PAIR/listener-stopped (C20, C18): the adapter's listener closes the channel
+// its owner waits on when it ends, on every return path. Close() waits for that
+// channel; the slow-consumer handler calls Close() on the NATS callback
+// goroutine — without the signal it blocks there for ever and the closed-
+// connection callback that stops the gateway never runs.
+// DOM/too-long-only-when-long (C18): the adapter refuses a subject as too long
+// only behind a test of its length.
+func ruleNatsSmall(c *Ctx) {
+	p := c.P
+	if fn := p.Fn("(*nats.Client).listener"); fn != nil {
+		var stopped *ssa.Parameter
+		for _, prm := range fn.Params {
+			if ch, ok := prm.Type().Underlying().(*types.Chan); ok {
+				if st, ok := ch.Elem().Underlying().(*types.Struct); ok && st.NumFields() == 0 {
+					stopped = prm
+				}
+			}
+		}
+		if stopped == nil {
+			c.note("listener takes no stop-signal channel")
+		} else {
+			var closes []ssa.Instruction
+			deferred := false
+			for _, in := range instrsOf(fn) {
+				if bc, ok := isBuiltinCall(in, "close"); ok && len(bc.Call.Args) == 1 && bc.Call.Args[0] == ssa.Value(stopped) {
+					if _, isD := in.(*ssa.Defer); isD && in.Block() == fn.Blocks[0] {
+						deferred = true
+					}
+					closes = append(closes, in)
+				}
+			}
+			for _, in := range instrsOf(fn) {
+				r, ok := in.(*ssa.Return)
+				if !ok {
+					continue
+				}
+				c.inst(1)
+				good := deferred
+				for _, cl := range closes {
+					if dominates(cl, r) {
+						good = true
+					}
+				}
+				c.check(good, fnName(fn), "the listener signals its end on every return path", p.InstrPos(r), "close(stopped) dominates the return (or is deferred at entry)",
+					"the listener can end without closing the channel Close() waits on: Close blocks for ever — on the NATS callback goroutine when the slow-consumer handler calls it, so the closed-connection callback that stops the gateway never runs")
+			}
+		}
+	} else {
+		c.undecided("(*nats.Client).listener", "anchor", "-", "not found")
+	}
+	// too long only when long
+	var tooLong *ssa.Global
+	for _, spk := range p.SSA.AllPackages() {
+		if spk.Pkg.Name() == "mq" {
+			tooLong, _ = spk.Members["ErrSubjectTooLong"].(*ssa.Global)
+		}
+	}
+	if tooLong == nil {
+		return
+	}
+	lenTest := func(i *ssa.If) (bool, bool) {
+		b, ok := i.Cond.(*ssa.BinOp)
+		if !ok {
+			return false, false
+		}
+		hasLen := false
+		var walk func(v ssa.Value, d int)
+		walk = func(v ssa.Value, d int) {
+			if d > 4 {
+				return
+			}
+			switch x := v.(type) {
+			case *ssa.Call:
+				if isBuiltinNamed(x, "len") {
+					hasLen = true
+				}
+			case *ssa.BinOp:
+				walk(x.X, d+1)
+				walk(x.Y, d+1)
+			}
+		}
+		walk(b, 0)
+		if !hasLen {
+			return false, false
+		}
+		switch b.Op {
+		case token.GTR, token.GEQ:
+			return true, true
+		case token.LSS, token.LEQ:
+			return false, true
+		}
+		return false, false
+	}
+	for _, fn := range p.Repo {
+		if !inScopePkgs(fn, "nats") {
+			continue
+		}
+		for _, in := range instrsOf(fn) {
+			uses := false
+			var ops []*ssa.Value
+			for _, op := range in.Operands(ops) {
+				if u, ok := (*op).(*ssa.UnOp); ok && u.X == ssa.Value(tooLong) {
+					uses = true
+				}
+			}
+			if !uses {
+				continue
+			}
+			c.inst(1)
+			c.check(p.guardedBy(in, lenTest) != nil, fnName(fn), "a subject is refused as too long only behind a test of its length", p.InstrPos(in), "behind a len() comparison",
+				"system.subjectTooLong is answered on a path that has not measured the subject: every subscribe / request is refused")
+		}
+	}
+}
